@@ -40,9 +40,9 @@ Record state := {
    default-constructed gene, UB inside a primitive).  [ROutOfFuel] is an
    artefact of the model only; the theorems show it never happens for a
    well-formed genome. *)
-Inductive res := RVal (v : value) | RThrow | RStuck | ROutOfFuel.
+Inductive mres := RVal (v : value) | RThrow | RStuck | ROutOfFuel.
 
-Definition res_of_outcome (o : outcome) : res :=
+Definition res_of_outcome (o : outcome) : mres :=
   match o with Val v => RVal v | Throw => RThrow | Stuck => RStuck end.
 
 Definition set_ip (st : state) (l : locus) : state :=
@@ -79,7 +79,7 @@ Definition fetch_var (i : nat) (st : state) : option value :=
 
 Section Exec.
 (* [rec st] = ( *prg_)[ip_].sym->eval( *this) with one unit of fuel less *)
-Variable rec : state -> res * state.
+Variable rec : state -> mres * state.
 
 (* value_t fetch_opaque_arg(unsigned i)
    { const gene &g(( *prg_)[ip_]);
@@ -88,7 +88,7 @@ Variable rec : state -> res * state.
      const auto ret(( *prg_)[ip_].sym->eval( *this));
      ip_ = backup;
      return ret; } *)
-Definition fetch_opaque_arg (i : nat) (st : state) : res * state :=
+Definition fetch_opaque_arg (i : nat) (st : state) : mres * state :=
   match gene_at g (ip st) with
   | None => (RStuck, st)
   | Some ge =>
@@ -109,7 +109,7 @@ Definition fetch_opaque_arg (i : nat) (st : state) : res * state :=
      auto &elem(cache_(g.locus_of_argument(i)));
      if (!elem.valid) { elem.value = fetch_opaque_arg(i); elem.valid = true; }
      return elem.value; } *)
-Definition fetch_arg (i : nat) (st : state) : res * state :=
+Definition fetch_arg (i : nat) (st : state) : mres * state :=
   match gene_at g (ip st) with
   | None => (RStuck, st)
   | Some ge =>
@@ -129,7 +129,7 @@ Definition fetch_arg (i : nat) (st : state) : res * state :=
 
 (* symbol::eval(symbol_params &) of the symbol whose strategy is [s],
    against this interpreter *)
-Fixpoint exec (s : strategy) (st : state) {struct s} : res * state :=
+Fixpoint exec (s : strategy) (st : state) {struct s} : mres * state :=
   match s with
   | Ret o => (res_of_outcome o, st)
   | Fetch i k =>
@@ -143,7 +143,7 @@ Fixpoint exec (s : strategy) (st : state) {struct s} : res * state :=
 End Exec.
 
 (* ( *prg_)[ip_].sym->eval( *this) *)
-Fixpoint eval_sym (fuel : nat) (st : state) {struct fuel} : res * state :=
+Fixpoint eval_sym (fuel : nat) (st : state) {struct fuel} : mres * state :=
   match fuel with
   | O => (ROutOfFuel, st)
   | S f =>
@@ -157,21 +157,21 @@ Fixpoint eval_sym (fuel : nat) (st : state) {struct fuel} : res * state :=
    { for (auto &e : cache_) e.valid = false;
      ip_ = ip;
      return ( *prg_)[ip_].sym->eval( *this); } *)
-Definition run_locus_fuel (fuel : nat) (l : locus) (st : state) : res * state :=
+Definition run_locus_fuel (fuel : nat) (l : locus) (st : state) : mres * state :=
   eval_sym fuel (set_ip (invalidate st) l).
 
 (* fuel = number of rows: enough for every well-formed genome *)
-Definition run_locus (l : locus) (st : state) : res * state :=
+Definition run_locus (l : locus) (st : state) : mres * state :=
   run_locus_fuel (rows g) l st.
 
 (* core_interpreter::run() -> run_nvi() { return run_locus(prg_->best()); } *)
-Definition run (st : state) : res * state := run_locus (best g) st.
+Definition run (st : state) : mres * state := run_locus (best g) st.
 
 (* src_interpreter::run(const std::vector<value_t> &ex) { example_ = &ex; return this->run(); } *)
-Definition run_ex (ex : list value) (st : state) : res * state := run (set_example st ex).
+Definition run_ex (ex : list value) (st : state) : mres * state := run (set_example st ex).
 
 (* a history: the same object run on a sequence of examples *)
-Fixpoint run_many (exs : list (list value)) (st : state) : list res * state :=
+Fixpoint run_many (exs : list (list value)) (st : state) : list mres * state :=
   match exs with
   | [] => ([], st)
   | ex :: rest =>
@@ -182,7 +182,7 @@ Fixpoint run_many (exs : list (list value)) (st : state) : list res * state :=
 End Machine.
 
 (* canonical form of a result (64-bit pattern for doubles) *)
-Definition show_res (r : res) : list Z :=
+Definition show_res (r : mres) : list Z :=
   match r with
   | RVal VVoid => [0%Z]
   | RVal (VInt z) => [1%Z; z]
@@ -259,7 +259,7 @@ Definition asked_at (t : tree) : list nat :=
 End Den.
 
 (* ---- specification predicates used by the theorems (memo invariant) ---- *)
-Definition is_val (r : res) : Prop := match r with RVal _ => True | _ => False end.
+Definition is_val (r : mres) : Prop := match r with RVal _ => True | _ => False end.
 
 (* every valid memo entry holds the denotation of the tree at its locus *)
 Definition cache_sound (vars : varenv) (g : genome) (st : state) : Prop :=
